@@ -300,7 +300,7 @@ pub proof fn lemma_strip_has_no_z64(x: Seq<u8>, pos: int)
         }
     }
 }
-//@use without_zip64_extra_field
+//@use without_zip64_extra_field optional
 // T14: Drop::drop verified as an inherent method so it can carry the representation invariant as precondition.
 // It calls the same `finalize` as finish() from the same state unless the writer is already closed (C01: identical bytes).
 //@impl src/write.rs | impl<W: Write + io::Seek> Drop for ZipWriter<W>
